@@ -901,3 +901,8 @@ mod tests {
         assert_eq!(&snap2.bytes[..], &data[..MAX_READ_AHEAD + 1]);
     }
 }
+
+// verification hook: bounded-model-checking harnesses (compiled only by Kani, `--cfg kani`)
+#[cfg(kani)]
+#[path = "/verif/harness/h_ring_reader.rs"]
+mod verif;
